@@ -20,7 +20,7 @@ os.makedirs(dst, exist_ok=True)
 meta = json.load(open(os.path.join(src, "meta.json")))
 # the sub-agents wrote these two fields as free text: keep the path / the command proper
 demo_file = (meta.get("demo_file", "") or "").split()[0] if meta.get("demo_file") else ""
-demo_cmd = re.sub(r"^cd <repo root> && ", "", meta.get("demo_cmd", "") or "")
+demo_cmd = re.sub(r"^cd (<[^>]*>|\S+) && ", "", meta.get("demo_cmd", "") or "")
 demo_cmd = re.split(r"\s{2,}\(", demo_cmd)[0].strip()
 demo_src = os.path.join(src, os.path.basename(demo_file)) if demo_file else ""
 wt = f"/tmp/confirm-wt-{os.getpid()}"
